@@ -39,6 +39,20 @@ func sweepValue(k int, seed int64, base int) ([]Line, error) {
 	if g == g2 {
 		twin = "same"
 	}
+	// "sealing the same value twice gives different strings" - also for seals far apart on one
+	// long-lived cipher: a pool of nonces that wraps round would repeat a sealed string
+	seen := map[string]bool{g: true, g2: true}
+	for i := 0; i < 1500; i++ {
+		gi, err := w.seal(v, w.c)
+		if err != nil {
+			return nil, err
+		}
+		if seen[gi] {
+			twin = "same"
+			break
+		}
+		seen[gi] = true
+	}
 	leak := leaks(g, v.fields) && leaks(g2, v.fields)
 	gb := readText(g).bytes
 	n := len(gb)
